@@ -122,24 +122,26 @@ def bitsMsb (b : Nat) : List Bool := (List.range 8).map fun i => (b / 2 ^ (7 - i
 /-- bits of a byte, least significant first -/
 def bitsLsb (b : Nat) : List Bool := (List.range 8).map fun i => (b / 2 ^ i) % 2 = 1
 
-/-- value of a bit string, first bit most significant -/
-def valMsb (bs : List Bool) : Nat := bs.foldl (fun a b => 2 * a + (if b then 1 else 0)) 0
 /-- value of a bit string, first bit least significant -/
 def valLsb : List Bool → Nat
   | [] => 0
   | b :: bs => (if b then 1 else 0) + 2 * valLsb bs
+/-- value of a bit string, first bit most significant -/
+def valMsb (bs : List Bool) : Nat := valLsb bs.reverse
 
 /-- cut a bit string into fields -/
 def fields (val : List Bool → Nat) : List Nat → List Bool → List Int
   | [], _ => []
   | w :: ws, bs => (val (bs.take w) : Int) :: fields val ws (bs.drop w)
 
-def mkSub (l : List Int) : Sub :=
-  { nc := l.getD 0 0, bc := l.getD 1 0, mc := l.getD 2 0, xmaxc := l.getD 3 0, xmc := (l.drop 4).take 13 }
+/-- sub-frame parameters from the flat list of 76 values, starting at index `b` -/
+def mkSub (l : List Int) (b : Nat) : Sub :=
+  { nc := l.getD b 0, bc := l.getD (b + 1) 0, mc := l.getD (b + 2) 0, xmaxc := l.getD (b + 3) 0,
+    xmc := (List.range 13).map fun i => l.getD (b + 4 + i) 0 }
 
 def mkParams (l : List Int) : Params :=
-  { larc := l.take 8,
-    subs := [mkSub ((l.drop 8).take 17), mkSub ((l.drop 25).take 17), mkSub ((l.drop 42).take 17), mkSub ((l.drop 59).take 17)] }
+  { larc := (List.range 8).map fun i => l.getD i 0,
+    subs := [mkSub l 8, mkSub l 25, mkSub l 42, mkSub l 59] }
 
 /-- the 33-byte layout: `none` = the magic nibble is not 0xD (`gsm_decode` returns −1 before touching anything) -/
 def unpack33 (c : List Byte) : Option Params :=
